@@ -98,7 +98,7 @@ func GetKeyFromPassword(passwd string, cname types.PrincipalName, realm string, 
 				// An empty sequence carries no hint
 				continue
 			}
-			if etypeID != eti[0].EType {
+			if et.GetETypeID() != eti[0].EType {
 				et, err = GetEtype(eti[0].EType)
 				if err != nil {
 					return key, et, fmt.Errorf("error getting encryption type: %v", err)
@@ -119,7 +119,7 @@ func GetKeyFromPassword(passwd string, cname types.PrincipalName, realm string, 
 				// An empty sequence carries no hint
 				continue
 			}
-			if etypeID != et2[0].EType {
+			if et.GetETypeID() != et2[0].EType {
 				et, err = GetEtype(et2[0].EType)
 				if err != nil {
 					return key, et, fmt.Errorf("error getting encryption type: %v", err)
